@@ -139,7 +139,7 @@ func TestRaceC16(t *testing.T) {
 // TestRaceC02 is the real-goroutine leg of C02 for the one shape the simulation cannot reach: several
 // ExecuteContext calls racing on ONE host channel (a check-then-act between them has no yield point
 // inside). Every call is cancelled and must return; the bound is wall-clock and deliberately huge
-// (10 s for scripts that poll on every statement), and it is the property's own observable
+// (30 s for scripts that poll on every statement), and it is the property's own observable
 // ("wall-clock time between cancel() and return").
 func TestRaceC02(t *testing.T) {
 	seed, d := budget()
@@ -177,7 +177,7 @@ func TestRaceC02(t *testing.T) {
 		}
 		time.Sleep(time.Duration(next(2000)) * time.Microsecond)
 		cancel()
-		deadline := time.After(10 * time.Second)
+		deadline := time.After(30 * time.Second)
 		for got := 0; got < nS+nR; got++ {
 			select {
 			case x := <-done:
@@ -186,7 +186,7 @@ func TestRaceC02(t *testing.T) {
 					t.FailNow()
 				}
 			case <-deadline:
-				fmt.Printf("REAL-LEG VIOLATION class=cancel-ignored\n%d of %d cancelled ExecuteContext calls sharing one host channel (cap %d, %d senders, %d receivers) had not returned 10 s after cancel()\n", nS+nR-got, nS+nR, capacity, nS, nR)
+				fmt.Printf("REAL-LEG VIOLATION class=cancel-ignored\n%d of %d cancelled ExecuteContext calls sharing one host channel (cap %d, %d senders, %d receivers) had not returned 30 s after cancel()\n", nS+nR-got, nS+nR, capacity, nS, nR)
 				t.FailNow()
 			}
 		}
